@@ -1,6 +1,8 @@
 package main
 
 import (
+	"fmt"
+	"os"
 	"go/token"
 	"go/types"
 )
@@ -54,8 +56,13 @@ func soleLeaf(t *Term) *Term {
 				return
 			}
 		case "index", "lookup":
-			if constTable(x.Args[0]) != nil {
+			if constTable(x.Args[0]) != nil || isGround(x.Args[0], 0) {
 				visit(x.Args[1])
+				return
+			}
+		case "field":
+			if x.Args[0].Op == "index" || x.Args[0].Op == "field" {
+				visit(x.Args[0])
 				return
 			}
 		}
@@ -110,7 +117,7 @@ func evalAt(t *Term, leaf string, v int64) (int64, bool) {
 	if n, ok := t.Int64(); ok {
 		return n, true
 	}
-	if t.String() == leaf {
+	if !overTable(t) && t.String() == leaf {
 		return v, true
 	}
 	switch t.Op {
@@ -123,11 +130,22 @@ func evalAt(t *Term, leaf string, v int64) (int64, bool) {
 		return n, true
 	case "index", "lookup":
 		tab := constTable(t.Args[0])
+		if tab == nil {
+			if e := termAt(t, leaf, v); e != nil {
+				return e.Int64()
+			}
+			return 0, false
+		}
 		i, ok := evalAt(t.Args[1], leaf, v)
-		if tab == nil || !ok || i < 0 || i >= int64(len(tab)) {
+		if !ok || i < 0 || i >= int64(len(tab)) {
 			return 0, false
 		}
 		return tab[i], true
+	case "field":
+		if e := termAt(t, leaf, v); e != nil {
+			return e.Int64()
+		}
+		return 0, false
 	case "bin":
 		x, ok1 := evalAt(t.Args[0], leaf, v)
 		y, ok2 := evalAt(t.Args[1], leaf, v)
@@ -253,7 +271,7 @@ func valuesOf(s IntervalSet) []int64 {
 // finiteSplit: the values of the leaf's region for which `a op n` holds / does not hold. ok=false when the
 // expression is not a function of one small-domain leaf.
 func (w *Walker) finiteSplit(a *Term, op token.Token, n int64) (leaf *Term, sat, uns IntervalSet, ok bool) {
-	if a.Op != "bin" && a.Op != "conv" && a.Op != "index" && a.Op != "lookup" {
+	if a.Op != "bin" && a.Op != "conv" && a.Op != "index" && a.Op != "lookup" && a.Op != "field" {
 		return nil, nil, nil, false
 	}
 	leaf = soleLeaf(a)
@@ -275,6 +293,112 @@ func (w *Walker) finiteSplit(a *Term, op token.Token, n int64) (leaf *Term, sat,
 			return nil, nil, nil, false
 		}
 		if cmpHolds(op, x, n) {
+			sv = append(sv, v)
+		} else {
+			uv = append(uv, v)
+		}
+	}
+	return leaf, setOf(sv), setOf(uv), true
+}
+
+// overTable: a selection out of a ground table (never the leaf itself; rendering it would be expensive).
+func overTable(t *Term) bool {
+	for i := 0; i < 8 && t != nil; i++ {
+		switch t.Op {
+		case "field":
+			t = t.Args[0]
+		case "index", "lookup":
+			return len(t.Args[0].Args) > 8 && isGround(t.Args[0], 0)
+		default:
+			return false
+		}
+	}
+	return false
+}
+
+// isGround: a literal aggregate of constants (a folded table of records).
+func isGround(t *Term, depth int) bool {
+	if t == nil || depth > 6 {
+		return false
+	}
+	switch t.Op {
+	case "const":
+		return true
+	case "zero":
+		return true
+	case "slicev", "struct":
+		for _, a := range t.Args {
+			if !isGround(a, depth+1) {
+				return false
+			}
+		}
+		return true
+	}
+	return false
+}
+
+// termAt resolves a selection (element, field) out of a ground table at leaf = v.
+func termAt(t *Term, leaf string, v int64) *Term {
+	switch t.Op {
+	case "const", "zero", "slicev", "struct":
+		return t
+	case "field":
+		in := termAt(t.Args[0], leaf, v)
+		if in == nil || (in.Op != "struct" && in.Op != "zero") {
+			return nil
+		}
+		return project(in, t.Name)
+	case "index":
+		base := termAt(t.Args[0], leaf, v)
+		i, ok := evalAt(t.Args[1], leaf, v)
+		if base == nil || !ok {
+			return nil
+		}
+		if base.Op == "zero" {
+			return zeroOf(elemType(base.Typ))
+		}
+		if base.Op != "slicev" || i < 0 || i >= int64(len(base.Args)) {
+			return nil
+		}
+		return base.Args[i]
+	}
+	return nil
+}
+
+// finiteSplitBool: a boolean selected out of a ground table by one small-domain leaf (table[b].ok).
+func (w *Walker) finiteSplitBool(c *Term) (leaf *Term, sat, uns IntervalSet, ok bool) {
+	if c.Op != "field" && c.Op != "index" {
+		return nil, nil, nil, false
+	}
+	leaf = soleLeaf(c)
+	if os.Getenv("UHLINT_DEBUG") == "FIN" {
+		fmt.Fprintf(os.Stderr, "finiteSplitBool %s leaf=%v inner=%s/%s\n", c.Op, leaf, c.Args[0].Op, c.Args[0].Args[0].Op)
+	}
+	if leaf == nil {
+		return nil, nil, nil, false
+	}
+	key := leaf.String()
+	cur, has := w.state.Ints[key]
+	if !has {
+		cur = fullSet(leaf.Typ)
+	}
+	if regionSize(cur) > finiteMax {
+		return nil, nil, nil, false
+	}
+	var sv, uv []int64
+	for _, v := range valuesOf(cur) {
+		e := termAt(c, key, v)
+		if os.Getenv("UHLINT_DEBUG") == "FIN" {
+			fmt.Fprintf(os.Stderr, "  at %d: %v\n", v, e)
+		}
+		if e == nil {
+			return nil, nil, nil, false
+		}
+		b, isB := e.BoolVal()
+		if !isB {
+			return nil, nil, nil, false
+		}
+		if b {
 			sv = append(sv, v)
 		} else {
 			uv = append(uv, v)
